@@ -56,12 +56,12 @@ Print Assumptions C23_rt_pk2_cauchy.
 
 Theorem C23_corot_to_pk2 : forall a b : nat -> R,
   (det2 (full_s 1%nat b) <> 0 -> corot_to_pk2_1 a b = flat_s 1%nat (spec_corot_to_pk2 1%nat (full_s 1%nat a) (full_s 1%nat b))).
-Proof. intros; exact corot_to_pk2_1_ok a b. Qed.
+Proof. intros; exact (corot_to_pk2_1_ok a b). Qed.
 Print Assumptions C23_corot_to_pk2.
 
 Theorem C23_pk2_to_corot : forall a b : nat -> R,
   (det2 (full_s 1%nat b) <> 0 -> pk2_to_corot_1 a b = flat_s 1%nat (spec_pk2_to_corot 1%nat (full_s 1%nat a) (full_s 1%nat b))).
-Proof. intros; exact pk2_to_corot_1_ok a b. Qed.
+Proof. intros; exact (pk2_to_corot_1_ok a b). Qed.
 Print Assumptions C23_pk2_to_corot.
 
 Theorem C23_jaumann_moduli : forall a b : nat -> R,
